@@ -170,3 +170,53 @@ func VerifC02Slicing() {
 }
 
 func timeDur(n int64) time.Duration { return time.Duration(n) }
+
+// VerifC02Concrete: the per-peer credit on concrete instants, prices and
+// intervals that a symbolic integer proof cannot reach if the code ever leaves
+// integer arithmetic (floating point is outside the encoder and is executed
+// concretely here): non-dyadic ratios of elapsed time to interval, products
+// that land exactly on a whole unit, wei-sized and beyond-64-bit prices. The
+// credit is exactly floor(elapsed x price / interval), for one and for two
+// peers the client is debited exactly the sum.
+func VerifC02Concrete() {
+	type tc struct {
+		elapsed, interval time.Duration
+		price             string
+	}
+	cases := []tc{
+		{18 * time.Second, time.Minute, "1000"},
+		{42 * time.Second, time.Minute, "1000"},
+		{7 * time.Second, time.Minute, "1000000000000000000"},
+		{45 * time.Second, time.Minute, "10"},
+		{time.Minute + 1, time.Minute, "1000000000000000"},
+		{100 * time.Millisecond, time.Minute, "1267650600228229401496703217721"},
+		{59*time.Second + 999999999, time.Minute, "3"},
+		{90 * time.Second, 7 * time.Second, "13"},
+	}
+	c := cases[verifapi.Choose("case", len(cases))]
+	price, _ := new(big.Int).SetString(c.price, 10)
+	db := memory.New()
+	t0 := time.Unix(1600000000, 0)
+	verifapi.SetNow(t0)
+	client := store.NodeID(verifapi.NodeID(0))
+	np := 1 + verifapi.Choose("peers", 2)
+	db.SetNode(store.Node{ID: client, LastSeen: t0})
+	var peers []store.Node
+	for i := 0; i < np; i++ {
+		id := store.NodeID(verifapi.NodeID(1 + i))
+		db.SetNode(store.Node{ID: id, IsHost: true, LastSeen: t0})
+		peers = append(peers, store.Node{ID: id, IsHost: true})
+	}
+	mgr := PayPerInterval(db, c.interval, price)
+	verifapi.SetNow(t0.Add(c.elapsed))
+	_, err := mgr.OnUpdate(store.Node{ID: client, LastSeen: t0}, peers)
+	verifapi.Reach("c02.concrete")
+	verifapi.Assert(err == nil, "c02.concrete.update-succeeds")
+	want := new(big.Int).Div(new(big.Int).Mul(big.NewInt(int64(c.elapsed)), price), big.NewInt(int64(c.interval)))
+	for _, p := range peers {
+		b, _ := db.GetNodeBalance(p.ID)
+		verifapi.Assert(b.Credit.Cmp(want) == 0, "c02.concrete.peer-credited-floor-of-exact-product")
+	}
+	cb, _ := db.GetNodeBalance(client)
+	verifapi.Assert(new(big.Int).Neg(&cb.Credit).Cmp(new(big.Int).Mul(want, big.NewInt(int64(np)))) == 0, "c02.concrete.client-debited-exactly-the-sum")
+}
